@@ -594,10 +594,13 @@ func (g *Gen) updMapFor(mc *model.Coll, tag bool) map[string]val.V {
 		used = append(used, p)
 		v := g.value()
 		if mc != nil && g.R.Chance(0.5) {
-			for f := range mc.Indexes {
+			for _, f := range mc.IndexFields() { // sorted: generation must not depend on map order
 				if strings.HasPrefix(f, p+".") {
 					// object holding a fresh value under the indexed child path
-					v = map[string]interface{}{strings.TrimPrefix(f, p+"."): g.value()}
+					obj := map[string]interface{}{}
+					model.Set(obj, strings.TrimPrefix(f, p+"."), g.value())
+					v = obj
+					break
 				}
 			}
 		}
